@@ -246,7 +246,7 @@ def judge_status(res):
         return "start_response called %d times" % len(res.calls), None
     status = res.calls[0]
     if res.errors:
-        return "answered %s and wrote to wsgi.errors: %s" % (status, res.errors[0][-400:]), None
+        return "answered %s and wrote to wsgi.errors: ... %s" % (status, res.errors[0].strip().splitlines()[-1][:300]), None
     cls = status[:1]
     if cls != "2" and cls != "4":
         return "answered %s %r" % (status, res.out), None
@@ -419,7 +419,7 @@ def make_mp_truncate(tag, kind, framing):
     raw_whole = b"".join(stubs_c12.chunked_pieces([body[:n // 2], body[n // 2:]]))
 
     def q(cut: int, t: int, f1: int):
-        assume(n - 1 <= t <= n + 1 and 1 <= f1 <= 2)
+        assume(n <= t <= n + 1 and 1 <= f1 <= 2)
         assume(0 <= cut <= (len(raw_whole) if framing == "chunked-raw" else n))
         cut = int(cut)
         env = {"CONTENT_TYPE": MP_CTYPE % boundary.decode()}
@@ -446,8 +446,8 @@ def make_mp_buffer(tag, kind, framing):
     boundary, body, _ = SKELETONS[tag]
     n = len(body)
 
-    def q(t: int, f1: int, f2: int):
-        assume(3 <= t <= n + 1 and 1 <= f1 <= 3 and 1 <= f2 <= 3)
+    def q(t: int, f1: int):
+        assume(3 <= t <= n + 1 and 1 <= f1 <= 3)
         sent = Sent(body, b"", b"")
         env = {"CONTENT_TYPE": MP_CTYPE % boundary.decode()}
         if framing == "chunked":
@@ -456,7 +456,7 @@ def make_mp_buffer(tag, kind, framing):
             stream = stubs.SymStream(len(raw), [], data=raw)
         else:
             env["CONTENT_LENGTH"] = str(n)
-            stream = stubs.SymStream(n, [f1, f2], data=body)
+            stream = stubs.SymStream(n, [f1], data=body)
         res = serve(kind, stream, t, env)
         return judge(kind, res, sent, boundary), observed(res)
     return checked(q)
@@ -587,9 +587,9 @@ E4, OK2, BOTH = ["status-4xx"], ["status-2xx", "delivered"], ["status-4xx", "sta
 # (skeleton, site, handler, labels that must be reachable, CPU seconds measured on the unchanged tree)
 HOLES_QUICK = [
     ("text", "start", "forms", BOTH, 35), ("text", "colon", "forms", BOTH, 14), ("ctype", "ctype-colon", "files", BOTH, 16),
-    ("file", "filename-val", "files", BOTH, 15), ("two", "mid-delim-after", "files", BOTH, 15),
+    ("file", "filename-val", "files", BOTH, 15), ("two", "mid-delim-after", "files", OK2, 15),
     ("ctype", "ctype-value", "files", BOTH, 14), ("two", "mid-delim-bound", "files", BOTH, 13),
-    ("text", "after-delim", "forms", ["status-4xx", "status-2xx"], 6), ("text", "data", "forms", BOTH, 5),
+    ("text", "after-delim", "forms", OK2, 9), ("text", "data", "forms", BOTH, 5),
     ("text", "name-1", "forms", E4, 4), ("text", "hvalue-1", "forms", E4, 3), ("text", "blank-tail", "forms", OK2, 3),
     ("file", "name-none", "files", E4, 3), ("file", "data", "files", OK2, 3), ("text", "blank", "forms", ["status-2xx"], 2),
     ("dup", "mid-delim-after", "forms", OK2, 2), ("dup", "mid-delim-bound", "forms", BOTH, 2),
@@ -597,7 +597,7 @@ HOLES_QUICK = [
     ("text", "delim-bound", "forms", BOTH, 1), ("file", "delim-dash", "files", BOTH, 1),
     ("text", "hvalue-none", "forms", E4, 1), ("text", "name-none", "forms", E4, 1), ("text", "end", "forms", OK2, 1),
 ]
-HOLES_QUICK_CHUNKED = [("text", "colon", "forms", BOTH, 14), ("text", "after-delim", "forms", ["status-4xx", "status-2xx"], 6),
+HOLES_QUICK_CHUNKED = [("text", "colon", "forms", BOTH, 14), ("text", "after-delim", "forms", OK2, 9),
                        ("text", "data", "forms", BOTH, 5), ("text", "delim-bound", "forms", BOTH, 1),
                        ("file", "data", "files", OK2, 3)]
 HOLES_THOROUGH = [
@@ -656,7 +656,7 @@ def queries(tier):
                "chunked-raw": "the chunk-encoded skeleton (two chunks), stream cut after `cut` bytes"}[framing]
         add("mp/truncate/%s/%s/%s" % (tag, kind, framing), make_mp_truncate(tag, kind, framing),
             "multipart skeleton %r = %r truncated at every offset `cut` (symbolic): %s; buffer = max_memfile_size in "
-            "[len-1, len+1], first read short by 1..2; handler reads request.%s" % (tag, body, how, kind),
+            "[len, len+1], first read short by 1..2; handler reads request.%s" % (tag, body, how, kind),
             150 if not T else 400, ["status-4xx", "status-2xx", "delivered"], "mp/truncate",
             {"skeleton": tag, "handler": kind, "framing": framing})
     for tag, kind, framing in ([("two", "files", "cl"), ("text", "forms", "chunked")] if not T else
@@ -664,7 +664,7 @@ def queries(tier):
                                 ("ctype", "files", "cl"), ("text", "forms", "cl")]):
         add("mp/buffer/%s/%s/%s" % (tag, kind, framing), make_mp_buffer(tag, kind, framing),
             "whole multipart skeleton %r, every buffer size = max_memfile_size in [3, len+1] (symbolic), %s; handler "
-            "reads request.%s" % (tag, "two short reads of 1..3 bytes" if framing == "cl" else "two chunks", kind),
+            "reads request.%s" % (tag, "first read short by 1..3 bytes" if framing == "cl" else "two chunks", kind),
             150 if not T else 400, ["status-4xx", "status-2xx", "delivered"], "mp/buffer",
             {"skeleton": tag, "handler": kind, "framing": framing})
     for tag, kind in ([("two", "files")] if not T else [("two", "files"), ("text", "forms")]):
@@ -687,7 +687,7 @@ def queries(tier):
     # ---- JSON
     for tag in JSON_QUICK + (["any3", "member-value3"] if T else []):
         prefix, k, suffix = JSON_HOLES[tag]
-        for kind in (["json"] + (["forms"] if T or tag in ("member-value", "any2", "obj-open") else [])):
+        for kind in (["json"] + (["forms"] if T or tag in ("member-value", "any2", "obj-open", "arr", "num") else [])):
             for framing in (["cl"] if not T else ["cl", "chunked"]):
                 if T and framing == "chunked" and k == 3:
                     continue
@@ -701,7 +701,7 @@ def queries(tier):
         for kind in ("json", "forms"):
             add("json/real/%s/%s" % (tag, kind), make_json_hole(tag, kind, "cl", False),
                 "application/json body %r + one symbolic byte (all 256 values) + %r through the real json.loads; handler "
-                "reads request.%s" % (prefix, suffix, kind), 100, ["status-4xx", "status-2xx"], "json/real",
+                "reads request.%s" % (prefix, suffix, kind), 100, ["status-4xx"] + ([] if (tag, kind) == ("any1", "forms") else ["status-2xx"]), "json/real",
                 {"prefix": prefix.decode(), "k": k, "suffix": suffix.decode(), "handler": kind})
     for tag, text in JSON_TEXTS.items():
         for kind in (["json"] if not T else ["json", "forms"]):
